@@ -229,6 +229,160 @@ func c10Run(cs c10case, raw bool) (obs string, fails []string) {
 	return obs, fails
 }
 
+// fail-backup: the schedule is forced through the scripted servers, which report every dial and every
+// arriving request and hold their answers until released.  mode = "backup<early><firstPrimary>".
+func c10RunBackup(cs c10case) (obs string, fails []string) {
+	uid := atomic.AddInt64(&c10seq, 1)
+	early, firstPrimary := cs.mode[6] == '1', cs.mode[7] == '1'
+	log := &attemptLog{}
+	ctrl := &bkCtrl{ev: make(chan bkEvent, 64)}
+	var addrs, keys []string
+	for i := range cs.dials {
+		addr := fmt.Sprintf("c10-%d-s%d", uid, i)
+		var d []bool
+		for _, ch := range cs.dials[i] {
+			d = append(d, ch == '1')
+		}
+		fs := &fakeServer{id: i, dials: d, calls: append([]string{}, cs.calls[i]...), log: log, ctrl: ctrl}
+		registerFake(addr, fs)
+		addrs = append(addrs, addr)
+		keys = append(keys, "vsrv@"+addr)
+	}
+	defer func() {
+		for _, a := range addrs {
+			unregisterFake(a)
+		}
+	}()
+	var pairs []*client.KVPair
+	for _, k := range keys {
+		pairs = append(pairs, &client.KVPair{Key: k})
+	}
+	d, _ := client.NewMultipleServersDiscovery(pairs)
+	opt := client.DefaultOption
+	opt.SerializeType = protocol.JSON
+	opt.Heartbeat = false
+	opt.BackupLatency = 15 * time.Millisecond
+	xc := client.NewXClient("Svc", client.Failbackup, client.SelectByUser, d, opt)
+	defer xc.Close()
+	xc.SetSelector(&rrSel{servers: keys, i: cs.rr})
+	res := ""
+	done := make(chan struct{})
+	go func() {
+		defer close(done)
+		reply := -1
+		err := xc.Call(context.Background(), "M", 1, &reply)
+		if err == nil {
+			res = "ok:" + strconv.Itoa(reply)
+		} else {
+			res = c10ErrClass(err)
+		}
+	}()
+	returned := false
+	// next event of the schedule, or the return of the call
+	next := func() (bkEvent, bool) {
+		if returned {
+			return bkEvent{}, false
+		}
+		select {
+		case e := <-ctrl.ev:
+			return e, true
+		case <-done:
+			returned = true
+			return bkEvent{}, false
+		case <-time.After(3 * time.Second):
+			fails = append(fails, "hang|neither a dial, nor a request, nor the return of the call within 3 s")
+			returned = true
+			return bkEvent{}, false
+		}
+	}
+	var held []bkEvent
+	release := func(e bkEvent) { close(e.rel) }
+	waitReturn := func() {
+		if returned {
+			return
+		}
+		select {
+		case <-done:
+		case <-time.After(3 * time.Second):
+			fails = append(fails, "hang|the call did not return within 3 s of the deciding answer")
+			res = "hang"
+		}
+		returned = true
+	}
+	// one xClient.Go as the servers see it: a dial (unless the client is cached) and, if it is accepted, the request
+	goAttempt := func() (bkEvent, bool) {
+		e, ok := next()
+		if !ok {
+			return e, false
+		}
+		if e.kind == "dial" {
+			if !e.ok {
+				return e, false
+			}
+			e, ok = next()
+			if !ok || e.kind != "arrive" {
+				return e, false
+			}
+		}
+		return e, e.kind == "arrive"
+	}
+	// the selection at the top of Call: a dial only
+	if _, ok := next(); ok {
+		a1, sent1 := goAttempt()
+		if sent1 && early {
+			release(a1)
+			waitReturn()
+		} else {
+			a2, sent2 := goAttempt()
+			switch {
+			case sent1 && sent2:
+				if firstPrimary {
+					release(a1)
+					waitReturn()
+					held = append(held, a2)
+				} else {
+					release(a2)
+					waitReturn()
+					held = append(held, a1)
+				}
+			case sent1:
+				release(a1)
+				waitReturn()
+			case sent2:
+				release(a2)
+				waitReturn()
+			default:
+				waitReturn()
+			}
+		}
+	}
+	waitReturn()
+	for _, e := range held {
+		release(e)
+	}
+	att := log.snapshot()
+	obs = fmt.Sprintf("[%s] %s", strings.Join(att, ","), res)
+	// ---- property oracle ----
+	if len(att) > 2 {
+		fails = append(fails, fmt.Sprintf("too-many-attempts|%d requests were delivered in fail-backup mode", len(att)))
+	}
+	if strings.HasPrefix(res, "ok:") {
+		found := false
+		for _, a := range att {
+			if strings.HasSuffix(a, ":ok"+res[3:]) {
+				found = true
+			}
+		}
+		if !found {
+			fails = append(fails, fmt.Sprintf("untruthful-result|the call returned %q but no delivered request was answered with that reply: %v", res, att))
+		}
+	}
+	if len(att) == 0 && strings.HasPrefix(res, "ok") {
+		fails = append(fails, "untruthful-result|success although no request was delivered")
+	}
+	return obs, fails
+}
+
 func maxInt(a, b int) int {
 	if a > b {
 		return a
@@ -320,6 +474,55 @@ func runC10(r *common.Rand, tier string, o *common.Out, replay string) {
 		}
 		cases = append(cases, cs)
 	}
+	// fail-backup: 2 servers, every dial script in {accept, refuse once, refuse twice}^2 x every outcome pair x both
+	// timing choices x both cursors; random scripts over 2-3 servers in addition
+	var bcases []c10case
+	for _, d0 := range []string{"", "0", "00"} {
+		for _, d1 := range []string{"", "0", "00"} {
+			for _, o0 := range []string{"ok", "svc", "lost"} {
+				for _, o1 := range []string{"ok", "svc", "lost"} {
+					for t := 0; t < 4; t++ {
+						for rr := 0; rr < 2; rr++ {
+							mk := func(o string, n int) string {
+								if o == "ok" {
+									return "ok" + strconv.Itoa(n)
+								}
+								return o
+							}
+							bcases = append(bcases, c10case{mode: fmt.Sprintf("backup%d%d", t/2, t%2), rr: rr,
+								dials: []string{d0, d1}, calls: [][]string{{mk(o0, 40)}, {mk(o1, 41)}}})
+						}
+					}
+				}
+			}
+		}
+	}
+	if tier != "thorough" {
+		var keep []c10case
+		for _, c := range bcases {
+			if r.Chance(30) {
+				keep = append(keep, c)
+			}
+		}
+		bcases = keep
+	}
+	nb := 40
+	if tier == "thorough" {
+		nb = 1500
+	}
+	for i := 0; i < nb; i++ {
+		n := 2 + r.Intn(2)
+		cs := c10case{mode: fmt.Sprintf("backup%d%d", r.Intn(2), r.Intn(2)), rr: r.Intn(n)}
+		for s := 0; s < n; s++ {
+			cs.dials = append(cs.dials, []string{"", "", "0", "00", "1"}[r.Intn(5)])
+			oc := []string{"ok", "ok", "svc", "lost"}[r.Intn(4)]
+			if oc == "ok" {
+				oc = "ok" + strconv.Itoa(1+r.Intn(90))
+			}
+			cs.calls = append(cs.calls, []string{oc})
+		}
+		bcases = append(bcases, cs)
+	}
 	if tier != "thorough" && len(cases) > 700 {
 		// keep the quick tier short: every third exhaustive case plus all random ones
 		var keep []c10case
@@ -330,6 +533,7 @@ func runC10(r *common.Rand, tier string, o *common.Out, replay string) {
 		}
 		cases = keep
 	}
+	cases = append(cases, bcases...)
 	type resT struct {
 		obs   string
 		fails []string
@@ -341,9 +545,14 @@ func runC10(r *common.Rand, tier string, o *common.Out, replay string) {
 		for i := range cases {
 			sem <- struct{}{}
 			go func(i int) {
-				o1, f1 := c10Run(cases[i], false)
-				o2, f2 := c10Run(cases[i], true)
-				results[i] = [2]resT{{o1, f1}, {o2, f2}}
+				if strings.HasPrefix(cases[i].mode, "backup") {
+					o1, f1 := c10RunBackup(cases[i])
+					results[i] = [2]resT{{o1, f1}, {"", nil}}
+				} else {
+					o1, f1 := c10Run(cases[i], false)
+					o2, f2 := c10Run(cases[i], true)
+					results[i] = [2]resT{{o1, f1}, {o2, f2}}
+				}
 				<-sem
 			}(i)
 		}
@@ -355,6 +564,9 @@ func runC10(r *common.Rand, tier string, o *common.Out, replay string) {
 	<-done
 	for i, cs := range cases {
 		for v, name := range []string{"call", "raw"} {
+			if name == "raw" && strings.HasPrefix(cs.mode, "backup") {
+				continue
+			}
 			id := fmt.Sprintf("x%d%s", i, name)
 			abstract := name + "|" + cs.model()
 			o.Begin(id, abstract)
